@@ -437,6 +437,18 @@ def part_named_twice(ctx):
             'define other with zz_o begin assign {N} 99 printf "={F}" '
             'println end show {V} other 1 show {V}',
             [fmt(val), fmt(99), fmt(val)]))
+        # a parameter hides a global of the same name for the whole body,
+        # also after the routine assigns to it
+        shapes.append((
+            'assign {N} 5 define show with {N} begin printf "={F}" println '
+            'assign {N} 77 printf "={F}" println end show {V} '
+            'printf "={F}" println',
+            [fmt(val), fmt(77), fmt(5)]))
+        shapes.append((
+            'assign {N} 5 define inner with {N} begin printf "={F}" println '
+            'end define outer with {N} begin inner {V} printf "={F}" println '
+            'end outer 8 printf "={F}" println',
+            [fmt(val), fmt(8), fmt(5)]))
         text, want = rng.choice(shapes)
         script = text.replace('{F}', fld).replace('{N}', n).replace(
             '{V}', str(v)).replace('{{', '{').replace('}}', '}')
